@@ -894,6 +894,78 @@ func c17f(c *Ctx) {
 		c.Unk("anchor:main.main", "-", "main.main not found")
 		return
 	}
+	// the text that is compiled is the file as it is: what reaches lexer.New is the bytes that
+	// were read (file or standard input), converted to a string and nothing else — a trimmed or
+	// otherwise cleaned-up text shifts every line number (markers, errors) against the file
+	if lx := c.Fn("lexer.New"); lx != nil {
+		var isRead func(f *ssa.Function, v ssa.Value, depth int) string
+		isRead = func(f *ssa.Function, v ssa.Value, depth int) string {
+			if depth > 6 {
+				return "too deep"
+			}
+			switch x := v.(type) {
+			case *ssa.Phi:
+				for _, e := range x.Edges {
+					if e == v {
+						continue
+					}
+					if w := isRead(f, e, depth+1); w != "" {
+						return w
+					}
+				}
+				return ""
+			case *ssa.Convert:
+				return isRead(f, x.X, depth+1)
+			case *ssa.Const:
+				return ""
+			case *ssa.Extract:
+				cl, ok := x.Tuple.(*ssa.Call)
+				if !ok {
+					break
+				}
+				switch calleeName(cl) {
+				case "io/ioutil.ReadFile", "io/ioutil.ReadAll", "os.ReadFile", "io.ReadAll":
+					return ""
+				}
+				if g := callee(cl); g != nil && c.W.InRepo(g) && len(g.Blocks) > 0 {
+					for _, r := range returnsOf(g) {
+						if x.Index < len(r.Results) {
+							if w := isRead(g, r.Results[x.Index], depth+1); w != "" {
+								return w
+							}
+						}
+					}
+					return ""
+				}
+				return "the result of " + calleeName(cl)
+			case *ssa.UnOp:
+				if a, ok := x.X.(*ssa.Alloc); ok {
+					for _, alt := range c.reachingStores(f, a, x) {
+						if alt.val != nil {
+							if w := isRead(f, alt.val, depth+1); w != "" {
+								return w
+							}
+						}
+					}
+					return ""
+				}
+			case *ssa.Call:
+				return "the result of " + calleeName(x)
+			}
+			return pretty(c.term(f, v))
+		}
+		n := 0
+		for _, ci := range c.W.callsTo(lx) {
+			f := ci.Parent()
+			if isTestFunc(c.W, f) || c.W.PkgShort(f) != "" {
+				continue
+			}
+			n++
+			why := isRead(f, ci.Common().Args[0], 0)
+			c.Check(why == "", fmt.Sprintf("input-text-unchanged/%s@%d", f.Name(), c.T(f).callOrd[ci]), c.W.Pos(ci.Pos()), "the lexer is given the bytes that were read, as a string", "the text handed to the lexer is "+why+", not simply the bytes read from the input: line numbers of markers and errors would no longer be those of the file")
+		}
+		c.Check(n >= 1, "input-text-unchanged/sites", "-", fmt.Sprintf("%d calls of lexer.New in package main", n), "no call of lexer.New found in package main")
+	}
 	type want struct {
 		ctor, field, flag, def string
 	}
